@@ -694,6 +694,143 @@ Proof.
   - intros H. destruct (bytes_ok b); [|reflexivity]. specialize (H eq_refl). destruct r; cbn; congruence.
 Qed.
 
+(* ------------------------------------------------------------------ the monitor in readable form (encoder cases) *)
+Lemma opt_N_eqb_eq (a b : option N) : opt_eqb N.eqb a b = true -> a = b.
+Proof. destruct a, b; cbn; try discriminate; try reflexivity. intros H. apply N.eqb_eq in H. now subst. Qed.
+
+Lemma dg_eqb_eq a b : C16.dg_eqb a b = true -> a = b.
+Proof.
+  destruct a, b. unfold C16.dg_eqb. cbn [C16.ecn C16.seg C16.contents]. intros H.
+  apply andb_prop in H as [H H3]. apply andb_prop in H as [H1 H2].
+  apply N.eqb_eq in H1. apply opt_N_eqb_eq in H2. apply bytes_eqb_eq in H3. congruence.
+Qed.
+
+Lemma status_eqb_eq a b : status_eqb a b = true -> a = b.
+Proof. destruct a, b; cbn; try discriminate; try reflexivity. intros H. apply N.eqb_eq in H. now subst. Qed.
+
+Lemma r2c_eqb_eq a b : r2c_eqb a b = true -> a = b.
+Proof.
+  destruct a, b; cbn [r2c_eqb]; try discriminate; intros H;
+    repeat match goal with
+           | H : _ && _ = true |- _ => apply andb_prop in H as [? ?]
+           | H : bytes_eqb _ _ = true |- _ => apply bytes_eqb_eq in H
+           | H : C16.dg_eqb _ _ = true |- _ => apply dg_eqb_eq in H
+           | H : status_eqb _ _ = true |- _ => apply status_eqb_eq in H
+           | H : (_ =? _) = true |- _ => apply N.eqb_eq in H
+           end; congruence.
+Qed.
+
+Lemma c2r_eqb_eq a b : c2r_eqb a b = true -> a = b.
+Proof.
+  destruct a, b; cbn [c2r_eqb]; try discriminate; intros H;
+    repeat match goal with
+           | H : _ && _ = true |- _ => apply andb_prop in H as [? ?]
+           | H : bytes_eqb _ _ = true |- _ => apply bytes_eqb_eq in H
+           | H : C16.dg_eqb _ _ = true |- _ => apply dg_eqb_eq in H
+           end; congruence.
+Qed.
+
+Lemma res_eqb_iff {A} (eqb : A -> A -> bool) :
+  (forall a, eqb a a = true) -> (forall a b, eqb a b = true -> a = b) ->
+  forall x y, res_eqb eqb x y = true <-> x = y.
+Proof.
+  intros Hr He x y. split.
+  - destruct x, y; cbn; try discriminate; intros H; try reflexivity.
+    + f_equal. now apply He.
+    + apply N.eqb_eq in H. now subst.
+  - intros ->. destruct y; cbn; auto. apply N.eqb_refl.
+Qed.
+
+Lemma not_panic_iff {A} (x : res A) : negb (is_panic x) = true <-> x <> Panic.
+Proof. destruct x; cbn; split; congruence. Qed.
+
+Lemma is_ok_iff {A} (x : res A) : is_ok x = true <-> exists a, x = Ok a.
+Proof. destruct x; cbn; split; try discriminate; eauto; intros [a H]; discriminate. Qed.
+
+(* The five clauses of [enc_monitor], as propositions.  [elen] is what encoded_len returned,
+   [enc] the digest of what to_bytes wrote, [sink] the digest of what start_send handed to the
+   websocket (or its SendError), [dec] the observation of what the peer's decoder made of [enc]'s
+   bytes; [digest_len e] is the length of the byte string whose digest is e (digest_len_digest). *)
+Definition enc_spec {M} (wf sendable : bool) (expect : M)
+    (elen : res N) (enc sink : res bytes) (dec : res M) : Prop :=
+  (elen <> Panic /\ enc <> Panic /\ sink <> Panic /\ dec <> Panic) /\
+  (exists l e, elen = Ok l /\ enc = Ok e /\ l = digest_len e) /\
+  (forall s, sink = Ok s -> enc = Ok s) /\
+  (wf = true -> dec = Ok expect) /\
+  (sendable = true -> forall s, sink = Ok s -> exists m', dec = Ok m').
+
+Lemma enc_monitor_spec {M} (meqb : M -> M -> bool) :
+  (forall a, meqb a a = true) -> (forall a b, meqb a b = true -> a = b) ->
+  forall wf sendable expect elen enc sink dec,
+  enc_monitor wf sendable expect meqb elen enc sink dec = true <->
+  enc_spec wf sendable expect elen enc sink dec.
+Proof.
+  intros Hr He wf sendable expect elen enc sink dec. unfold enc_monitor, enc_spec.
+  rewrite !andb_true_iff, !not_panic_iff.
+  assert (H2 : match elen, enc with Ok l, Ok e => l =? digest_len e | _, _ => false end = true <->
+               exists l e, elen = Ok l /\ enc = Ok e /\ l = digest_len e).
+  { destruct elen as [l|x1|], enc as [e|x2|]; split; try discriminate;
+      try (intros (l0 & e0 & H1 & H2 & _); discriminate).
+    - intros H. apply N.eqb_eq in H. eauto.
+    - intros (l0 & e0 & [= <-] & [= <-] & ->). apply N.eqb_refl. }
+  assert (H3 : match sink with Ok s => res_eqb bytes_eqb (Ok s) enc | _ => true end = true <->
+               forall s, sink = Ok s -> enc = Ok s).
+  { destruct sink as [s| |]; [|split; [intros _ s0; discriminate|reflexivity]..].
+    rewrite (res_eqb_iff bytes_eqb bytes_eqb_refl bytes_eqb_eq). split.
+    - intros H s0 [= <-]. now symmetry.
+    - intros H. symmetry. now apply H. }
+  assert (H4 : (if wf then res_eqb meqb dec (Ok expect) else true) = true <-> (wf = true -> dec = Ok expect)).
+  { destruct wf; [|split; [discriminate|reflexivity]]. rewrite (res_eqb_iff meqb Hr He). tauto. }
+  assert (H5 : (if is_ok sink && sendable then is_ok dec else true) = true <->
+               (sendable = true -> forall s, sink = Ok s -> exists m', dec = Ok m')).
+  { destruct sendable; rewrite ?andb_true_r, ?andb_false_r; [|split; [discriminate|reflexivity]].
+    destruct (is_ok sink) eqn:E.
+    - rewrite is_ok_iff. apply is_ok_iff in E as [s E]. split; [intros H _ s0 _; exact H|eauto].
+    - split; [|reflexivity]. intros _ _ s Hs. rewrite Hs in E. discriminate. }
+  rewrite H2, H3, H4, H5. tauto.
+Qed.
+
+Lemma monitor_enc_r_spec v m elen enc sink dec :
+  typed_r2c (is_point_of (r2c_keys m)) m = true ->
+  (monitor (IEncR v m) (OEncR elen enc sink dec) = true <->
+   enc_spec (wf_r2c (is_point_of (r2c_keys m)) v m) (version_ok v m) (obs_r2c m) elen enc sink dec /\
+   (version_ok v m = false -> r2c_payload_len m <= MAXP -> dec = Err E_VERSION)).
+Proof.
+  intros Ht. cbn [monitor]. rewrite Ht. cbn [negb].
+  rewrite andb_true_iff, (enc_monitor_spec r2c_eqb r2c_eqb_refl r2c_eqb_eq).
+  assert (H : (if negb (version_ok v m) && (r2c_payload_len m <=? MAXP)
+               then res_eqb r2c_eqb dec (Err E_VERSION) else true) = true <->
+              (version_ok v m = false -> r2c_payload_len m <= MAXP -> dec = Err E_VERSION)).
+  { destruct (version_ok v m); cbn [negb andb]; [split; [discriminate|reflexivity]|].
+    destruct (N.leb_spec (r2c_payload_len m) MAXP) as [Hl|Hl].
+    - rewrite (res_eqb_iff r2c_eqb r2c_eqb_refl r2c_eqb_eq). tauto.
+    - split; [intros _ _ Hx; lia|reflexivity]. }
+  rewrite H. tauto.
+Qed.
+
+Lemma monitor_enc_c_spec m elen enc sink dec :
+  typed_c2r (is_point_of (c2r_keys m)) m = true ->
+  (monitor (IEncC m) (OEncC elen enc sink dec) = true <->
+   (elen <> Panic /\ enc <> Panic /\ sink <> Panic /\ dec <> Panic) /\
+   (exists l e, elen = Ok l /\ enc = Ok e /\ l = digest_len e) /\
+   (forall s, sink = Ok s -> enc = Ok s) /\
+   (wf_c2r (is_point_of (c2r_keys m)) m = true -> dec = Ok (obs_c2r m)) /\
+   (forall s, sink = Ok s -> exists m', dec = Ok m')).
+Proof.
+  intros Ht. cbn [monitor]. rewrite Ht. cbn [negb].
+  rewrite (enc_monitor_spec c2r_eqb c2r_eqb_refl c2r_eqb_eq). unfold enc_spec.
+  split; intros (H1 & H2 & H3 & H4 & H5); repeat split; try tauto; auto.
+Qed.
+
+(* outside the quantifier (terms that are not values of the Rust message types) the monitor
+   accepts every observation of the right shape *)
+Lemma monitor_enc_untyped_r v m elen enc sink dec :
+  typed_r2c (is_point_of (r2c_keys m)) m = false -> monitor (IEncR v m) (OEncR elen enc sink dec) = true.
+Proof. intros Ht. cbn [monitor]. now rewrite Ht. Qed.
+Lemma monitor_enc_untyped_c m elen enc sink dec :
+  typed_c2r (is_point_of (c2r_keys m)) m = false -> monitor (IEncC m) (OEncC elen enc sink dec) = true.
+Proof. intros Ht. cbn [monitor]. now rewrite Ht. Qed.
+
 (* ------------------------------------------------------------------ non-vacuity and witnesses *)
 Definition kA : bytes := hex "197f6b23e16c8532c6abc838facd5ea789be0c76b2920334039bfa8b3d368d61".
 Definition ipA : bytes -> bool := is_point_of [kA].
